@@ -1128,6 +1128,23 @@ impl Blockchain {
             debug!("gt count is not valid");
             return (false, WALLET_NOT_UPDATED);
         }
+        // the other blocks of the new chain were stored as side blocks and have never
+        // been checked: every window ending inside the new chain needs its tickets too
+        for hash in new_chain.iter().skip(1) {
+            let (previous_block_hash, has_gt) = match self.blocks.get(hash) {
+                Some(block) => (block.previous_block_hash, block.has_golden_ticket),
+                None => continue,
+            };
+            if !self.is_golden_ticket_count_valid(
+                previous_block_hash,
+                has_gt,
+                configs.is_browser(),
+                configs.is_spv_mode(),
+            ) {
+                debug!("gt count is not valid inside the new chain");
+                return (false, WALLET_NOT_UPDATED);
+            }
+        }
 
         if old_chain.is_empty() {
             let mut result: WindingResult =
